@@ -1,13 +1,14 @@
 ----------------------------- MODULE RenderTrace -----------------------------
-(* Code -> spec validation for C08.  One trace = one real render of a Jinja source through
-   Linter.render_string (primary variant), recorded at the returns of JinjaTemplater.process and
-   JinjaTemplater.construct_render_func (fast path taken = process returned without building a render
-   function), together with the render of the same source and context by an independently built
-   jinja2 SandboxedEnvironment (the reference).  Texts are interned per trace: src = the newline-
-   normalised source, out = the primary variant's templated_str (0 = no variant), ref = the reference
-   render (0 = the reference raised).  `markers` is the contract-side enabling condition of FastPath:
-   for TLC-generated skeletons it is the value TLC computed (Render!HasMarkers), for corpus files the
-   recorder's own scan for {{ {% {#.  The verdict is Render!TemplateClause.                        *)
+(* Code -> spec validation for C08 (event "Template") and for the python templater of C09 (event "PyFormat").
+
+   Template: one trace = one real render of a Jinja source through Linter.render_string (primary variant),
+   recorded at the returns of JinjaTemplater.process and JinjaTemplater.construct_render_func (fast path
+   taken = process returned without building a render function), together with the render of the same source
+   and context by an independently built jinja2 SandboxedEnvironment (the reference).  Texts are interned per
+   trace: src = the newline-normalised source, out = the primary variant's templated_str (0 = no variant),
+   ref = the reference render (0 = the reference raised).  `markers` is the contract-side enabling condition of
+   FastPath: for TLC-generated skeletons the value TLC computed (Render!HasMarkers), for corpus files the
+   recorder's own scan for {{ {% {#.  The verdict is Render!TemplateClause.                              *)
 EXTENDS Render, IOUtils, TLCExt
 
 Traces == JsonDeserialize(IOEnv.VF_TRACES)
@@ -17,7 +18,35 @@ tvars == <<tid, pc, rej, nacc, fin, s, m>>
 T  == Traces[tid]
 Ev == T.events[pc + 1]
 
-Clause == IF Ev.ev = "Template" THEN TemplateClause(Ev) ELSE "UnknownEvent"
+(* C09, python templater, code -> spec: event "PyFormat" carries a (longer, generated) source as the sequence of
+   its character classes `cls` and code points `chr`, the flattened context `ctx` (plain names, and the dotted keys
+   of context['sqlfluff']; values are str), the implementation's outcome ("render" | "tmp" | "exc") and, when it
+   rendered, the code points of the output.  The source is scanned by Render!PyStep with the code points as
+   payload; validity and the expected text are the contract's.  The same event built from string.Formatter's
+   outcome (trace ids "fx..") must be accepted too: that cross-checks the specification itself.           *)
+RECURSIVE PyScan(_, _, _, _)
+PyScan(mm, cls, chr, i) == IF i > Len(cls) THEN mm ELSE PyScan(PyStep(mm, cls[i], chr[i]), cls, chr, i + 1)
+CtxIdx(ctx, n) == LET S == {k \in 1..Len(ctx) : ctx[k].name = n} IN IF S = {} THEN 0 ELSE CHOOSE k \in S : TRUE
+TFieldErr(f, ctx) == IF f.t = <<>> THEN "empty-field-name"
+                     ELSE IF CtxIdx(ctx, f.t) = 0 THEN "undefined-name"
+                     ELSE IF f.conv # <<>> /\ f.conv # <<SName>> THEN "bad-conversion"
+                     ELSE IF f.spec # <<>> /\ f.spec # <<SName>> THEN "bad-format-spec"
+                     ELSE "none"
+RECURSIVE TRender(_, _, _)
+TRender(segs, ctx, i) == IF i > Len(segs) THEN <<>>
+                         ELSE (IF segs[i].k = "lit" THEN segs[i].t ELSE ctx[CtxIdx(ctx, segs[i].t)].val)
+                              \o TRender(segs, ctx, i + 1)
+PyFormatClause(ev) ==
+   LET mm    == PyScan(PyInit, ev.cls, ev.chr, 1)
+       valid == /\ SyntaxErr(mm) = "none"
+                /\ \A i \in 1..Len(mm.segs) : mm.segs[i].k = "fld" => TFieldErr(mm.segs[i], ev.ctx) = "none"
+   IN IF valid THEN (IF ev.outcome # "render" THEN "ValidRenders"
+                     ELSE IF ev.out # TRender(mm.segs, ev.ctx, 1) THEN "RenderedEqualsFormat" ELSE "ok")
+      ELSE IF ev.outcome = "tmp" THEN "ok" ELSE "InvalidGivesTemplaterError"
+
+Clause == CASE Ev.ev = "Template" -> TemplateClause(Ev)
+            [] Ev.ev = "PyFormat" -> PyFormatClause(Ev)
+            [] OTHER -> "UnknownEvent"
 
 NextTrace == tid' = tid + 1 /\ pc' = 0
 TInit == /\ tid = 1 /\ pc = 0 /\ rej = <<>> /\ nacc = 0 /\ fin = FALSE
